@@ -1,2 +1,2 @@
-int l2func_2(void){ return 128; }
-void *addr_l2func_2(void){ return (void*)l2func_2; }
+int l2data_2[2] = { 9 };
+const void *addr_l2data_2(void){ return l2data_2; } int read_l2data_2(void){ return l2data_2[0]; }
